@@ -87,7 +87,7 @@ func loopCounter(v ssa.Value) (init, step int64, ok bool) {
 		}
 		step, haveStep = c, true
 	}
-	return init, step, haveInit && haveStep && init >= 0
+	return init, step, haveInit && haveStep && init >= -1
 }
 
 // hasGuard: a dominating guard `x OP y` (after polarity normalisation) with the given predicate.
@@ -161,6 +161,34 @@ func sameSliceVal(a, b ssa.Value) bool {
 	lb, ok2 := b.(*ssa.UnOp)
 	if !ok1 || !ok2 || la.Op != token.MUL || lb.Op != token.MUL {
 		return false
+	}
+	if al, ok := la.X.(*ssa.Alloc); ok && la.X == lb.X {
+		// loads of a local variable whose address was handed to a decoder before both loads
+		for _, ref := range *al.Referrers() {
+			switch x := ref.(type) {
+			case *ssa.UnOp, *ssa.DebugRef:
+			case *ssa.Store:
+				if !(instrDominates(x, la) && instrDominates(x, lb)) {
+					return false
+				}
+			case *ssa.MakeInterface:
+				for _, r2 := range *x.Referrers() {
+					in, ok := r2.(*ssa.Call)
+					if !ok || !(instrDominates(in, la) && instrDominates(in, lb)) {
+						if _, isd := r2.(*ssa.DebugRef); !isd {
+							return false
+						}
+					}
+				}
+			case *ssa.Call:
+				if !(instrDominates(x, la) && instrDominates(x, lb)) {
+					return false
+				}
+			default:
+				return false
+			}
+		}
+		return true
 	}
 	fa, ok1 := la.X.(*ssa.FieldAddr)
 	fb, ok2 := lb.X.(*ssa.FieldAddr)
@@ -245,9 +273,35 @@ func provesLE(env *IntEnv, E ssa.Value, extra int64, s ssa.Value, b *ssa.BasicBl
 			}
 		}
 	}
+	// io.Reader contract: n returned by Read(s) / ReadAtLeast(_, s, _) satisfies 0 <= n <= len(s)
+	if ex, ok := E.(*ssa.Extract); ok && ex.Index == 0 && extra == 0 {
+		if c, ok := ex.Tuple.(*ssa.Call); ok {
+			for _, a := range c.Call.Args {
+				if a == s {
+					name := ""
+					if c.Call.IsInvoke() {
+						name = c.Call.Method.Name()
+					} else if f := c.Call.StaticCallee(); f != nil {
+						name = f.Name()
+					}
+					if name == "Read" || name == "ReadAtLeast" || name == "ReadFull" {
+						return "count returned by " + name + " into this buffer", true
+					}
+				}
+			}
+		}
+	}
+	// symbolic: s = make([]T, x+c2), E = x+c  with c+extra <= c2
+	if ms, ok := s.(*ssa.MakeSlice); ok {
+		lb, lc := splitAddConst(ms.Len)
+		eb, ec := splitAddConst(E)
+		if symEq(lb, eb, 0) && ec+extra <= lc && ec >= 0 {
+			return "made with a longer length (x+c)", true
+		}
+	}
 	// Lemma A / direct: E = i + c
 	base, c := splitAddConst(E)
-	if init, step, ok := loopCounter(base); ok {
+	if init, step, ok := loopCounter(base); ok && init >= 0 {
 		lt := hasGuard(b, func(op token.Token, x, y ssa.Value) bool {
 			return op == token.LSS && x == base && isLenOf(y, s)
 		})
@@ -374,6 +428,11 @@ func nonNegative(env *IntEnv, v ssa.Value, b *ssa.BasicBlock, d int) bool {
 	}
 	if init, _, ok := loopCounter(v); ok && init >= 0 {
 		return true
+	}
+	if base, c := splitAddConst(v); base != v {
+		if init, _, ok := loopCounter(base); ok && init+c >= 0 {
+			return true
+		}
 	}
 	if bo, ok := v.(*ssa.BinOp); ok && (bo.Op == token.ADD || bo.Op == token.MUL) {
 		return nonNegative(env, bo.X, b, d+1) && nonNegative(env, bo.Y, b, d+1)
